@@ -479,6 +479,22 @@ def handleMessage (cid : Option String) (msg : Option JVal) : M Unit := do
           if !waiting then sendReply cid mid cast "ok" "-" "-"
     | _ => sendReply cid mid cast "error" "2" "-"
 
+/-- exception classes by name, as the `except` ladder of `dispatch` tells them apart -/
+def excOfClass : String → Exc
+  | "MessageError" => .message
+  | "ConflictError" => .conflict
+  | "OSError" | "FileNotFoundError" | "PermissionError" | "ProcessLookupError" => .oserror
+  | n => .other n
+
+/-- `Controller.dispatch` for a well-formed request whose command raises `e` synchronously from
+    `validate` or `execute`: the ladder ends in a bare `except:`, so whatever is raised — classes
+    outside `Exception` such as SystemExit or KeyboardInterrupt included — becomes one error reply
+    and nothing escapes into the event loop -/
+def dispatchRaised (cid : Option String) (j : JVal) (e : Exc) : M Unit := do
+  let mid := (j.get? "id").getD .null
+  let cast := match j.get? "msg_type" with | some (.str "cast") => true | _ => false
+  sendReply cid mid cast "error" (errnoOf e) "-"
+
 /-- `SysHandler._quit`: a termination signal waits for a running exclusive command -/
 def sigQuit : M Unit := do
   let a ← getA
